@@ -225,6 +225,72 @@ func vfC01TSignOver(k vfC01TKey, pub crypto.PublicKey) ([]byte, error) {
 	return sk.Signature, nil
 }
 
+func vfC01TUvarint(b []byte) (v uint64, n int) {
+	for i, c := range b {
+		v |= uint64(c&0x7f) << (7 * uint(i))
+		if c < 0x80 {
+			return v, i + 1
+		}
+	}
+	return 0, 0
+}
+
+// vfC01TReencodeKey: the marshalled public key (message PublicKey {Type = 1; Data = 2}) in another VALID
+// protobuf encoding of the same key (form 0: canonical).  The peer ID must not depend on the form.
+func vfC01TReencodeKey(raw []byte, form int) []byte {
+	if len(raw) < 4 || raw[0] != 0x08 {
+		return raw
+	}
+	_, tn := vfC01TUvarint(raw[1:])
+	typ := raw[:1+tn]
+	rest := raw[1+tn:]
+	if tn == 0 || len(rest) < 2 || rest[0] != 0x12 {
+		return raw
+	}
+	cat := func(parts ...[]byte) []byte {
+		var out []byte
+		for _, p := range parts {
+			out = append(out, p...)
+		}
+		return out
+	}
+	switch form % 5 {
+	case 1:
+		return cat(raw, []byte{0x18, 0x01})
+	case 2:
+		return cat(rest, typ)
+	case 3:
+		return cat([]byte{0x08, (typ[1] + 1) % 4}, typ, rest)
+	case 4:
+		return cat([]byte{0x08, typ[1] | 0x80, 0x00}, rest)
+	}
+	return raw
+}
+
+// vfC01THonestPair: honest handshakes between two hosts on the given Transport objects, in both
+// directions, each side naming its real counterpart; every endpoint is judged against the ledger.
+// Returns how many of the 4 endpoints completed.
+func vfC01THonestPair(ctx context.Context, c *vfC01TCtx, ta *Transport, ka vfC01TKey, tb *Transport, kb vfC01TKey) int {
+	done := 0
+	for dir := 0; dir < 2; dir++ {
+		ct, ck, st, sk := ta, ka, tb, kb
+		if dir == 1 {
+			ct, ck, st, sk = tb, kb, ta, ka
+		}
+		cc, sc := net.Pipe()
+		cr, sr := vfC01TRun(ctx, ct, st, sk.id, ck.id, cc, sc)
+		vfC01TAuditHonest(c, "client (honest session)", cr, sk.id, sk, nil)
+		vfC01TAuditHonest(c, "server (honest session)", sr, ck.id, ck, nil)
+		if cr.err == nil {
+			done++
+		}
+		if sr.err == nil {
+			done++
+		}
+	}
+	return done
+}
+
 // craft builds the tls.Certificate list the malicious endpoint presents
 func (w *vfC01TWorld) craft(c vfC01TCert, form int) ([]tls.Certificate, error) {
 	if c.Chain == 0 {
@@ -252,7 +318,8 @@ func (w *vfC01TWorld) craft(c vfC01TCert, form int) ([]tls.Certificate, error) {
 			var sk signedKey
 			switch e.Pub {
 			case "M":
-				sk.PubKey = w.m.raw
+				// the attacker's genuine key, in the canonical or another valid protobuf encoding
+				sk.PubKey = vfC01TReencodeKey(w.m.raw, form/3)
 			case "V":
 				sk.PubKey = w.v.raw
 			default:
@@ -340,6 +407,8 @@ func vfC01TAuditHonest(c *vfC01TCtx, side string, r vfC01TRes, named peer.ID, ho
 	}
 	if rk := r.conn.RemotePublicKey(); rk == nil || !rk.Equals(holder.pub) {
 		c.mismatch("tls-wrong-remote-public-key", side+": RemotePublicKey() is not the identity key the other endpoint holds", holder.id.String(), got)
+	} else if id, err := peer.IDFromPublicKey(rk); err != nil || id != r.conn.RemotePeer() {
+		c.mismatch("tls-remote-peer-not-derived-from-remote-key", side+": RemotePeer() is not the ID of RemotePublicKey()", id.String(), got)
 	}
 	if named != "" && r.conn.RemotePeer() != named {
 		c.mismatch("tls-expected-peer-violated", fmt.Sprintf("%s named %s and completed the handshake with %s", side, named, r.conn.RemotePeer()), named.String(), got)
@@ -377,9 +446,21 @@ func vfC01TReplayWalk(t *testing.T, res *vfh.Result, w *vfh.Walk, keys map[strin
 			return
 		}
 		cur := init
+		var warmH *Transport
 		for _, st := range w.Steps {
 			c.prefix = append(c.prefix, st.Op)
 			switch st.Op.Name() {
+			case "warm":
+				// the honest side and the victim (the very Transport whose certificate the attacker copies from)
+				// complete honest handshakes in both directions first; the objects stay alive
+				if warmH, err = New(ID, world.h.priv, nil); err != nil {
+					return
+				}
+				c.cfg["history"] = "warm"
+				if n := vfC01THonestPair(ctx, c, warmH, world.h, world.victim, world.v); n != 4 {
+					c.mismatch("L2:honest-session-fails", "TLS: an honest handshake of the warm-up did not complete on both sides", 4, n)
+				}
+				res.Inc("T.warm", 1)
 			case "mutate":
 				if err = json.Unmarshal(st.State, &cur); err != nil {
 					return
@@ -395,6 +476,11 @@ func vfC01TReplayWalk(t *testing.T, res *vfh.Result, w *vfh.Walk, keys map[strin
 				if e != nil {
 					err = e
 					return
+				}
+				if warmH != nil && form%2 == 0 {
+					// same verifier object as in the warm-up (otherwise a fresh one in the same process)
+					ht = warmH
+					c.cfg["history"] = "warm, same transport object"
 				}
 				certs, e := world.craft(cur.Cert, form)
 				if e != nil {
@@ -438,6 +524,12 @@ func vfC01TReplayWalk(t *testing.T, res *vfh.Result, w *vfh.Walk, keys map[strin
 				// a refused client learns of it at its first Read
 				if cur.Mal == "client" && mr.err == nil && mr.did && (mr.read == nil) != (hr.err == nil) {
 					c.mismatch("L2:first-read", "the client's first Read does not reflect the server's verdict", hr.err == nil, got)
+				}
+				if warmH != nil {
+					// whatever the attacker presented must not poison later honest handshakes on the same objects
+					if n := vfC01THonestPair(ctx, c, warmH, world.h, world.victim, world.v); n != 4 {
+						c.mismatch("L2:honest-session-fails", "TLS: an honest handshake after the attack did not complete on both sides", 4, n)
+					}
 				}
 			case "honest":
 				ctp, e := New(ID, world.h.priv, nil)
@@ -650,16 +742,25 @@ func TestVerifC01TLSReplay(t *testing.T) {
 		// the attacker's identity key type decides which Verify runs on its extension; the victim's which
 		// one runs on the victim's: all four of each over the walks, all sixteen pairs in the thorough tier (for
 		// behaviours with at most two mutations)
+		muts := 0
+		for _, st := range w.Steps {
+			if st.Op.Name() == "mutate" {
+				muts++
+			}
+		}
 		for a, tm := range T {
-			if vfh.Thorough() && len(w.Steps) <= 3 {
+			if vfh.Thorough() && muts <= 2 {
 				for _, tv := range T {
 					jobs = append(jobs, job{w, tm, tv, T[rnd.Intn(4)], a + i})
 				}
-			} else {
-				jobs = append(jobs, job{w, tm, T[(a+i+int(seed))%4], T[rnd.Intn(4)], a + i})
+			} else if vfh.Thorough() || (a+i+int(seed))%2 == 0 {
+				// quick tier: two of the four attacker key types per behaviour, alternating over the behaviours
+				jobs = append(jobs, job{w, tm, T[(a+i+int(seed))%4], T[rnd.Intn(4)], a + i + int(seed)})
 			}
 		}
 	}
+	// the order of the attacks within the process varies with the seed
+	mrand.New(mrand.NewSource(seed)).Shuffle(len(jobs), func(a, b int) { jobs[a], jobs[b] = jobs[b], jobs[a] })
 	ch := make(chan job, len(jobs))
 	for _, j := range jobs {
 		ch <- j
